@@ -425,3 +425,35 @@ def validate_trace(rep, pid, module, tpath, part="trace", cfg=None, workers=None
     rep.part(part, records=n, mismatches=len(bad))
     rep.cov["traces_validated_against_impl"] += n
     return n, sorted(set(bad))
+
+
+def stream_cases(rep, pid, module, cfg, out_path, part, tag="CASE", append=False, **kw):
+    """Like model_check, but CASE lines are decoded and written straight to out_path (no list in memory).
+    Returns (count, TlcResult)."""
+    prefix = '<<"%s", ' % tag
+    n = [0]
+    f = open(out_path, "a" if append else "w")
+    sample = []
+
+    def cb(ln):
+        if ln.startswith(prefix) and ln.endswith(">>"):
+            body = tla_string(ln[len(prefix):-2])
+            f.write(body)
+            f.write("\n")
+            n[0] += 1
+            if len(sample) < 2 and n[0] % 997 == 1:
+                sample.append(body)
+            return True
+        return False
+
+    try:
+        res = run_tlc(pid, module, cfg=cfg, name=part, line_cb=cb, **kw)
+    finally:
+        f.close()
+    if res.violated or res.rc != 0:
+        raise ToolError("model theorem violated in %s/%s (%s): %s\n%s" % (pid, module, cfg, res.violated, "\n".join(res.lines[-30:])))
+    rep.add_tlc(res, part)
+    rep.part(part, emitted=n[0], cmd=res.cmd)
+    for s in sample[:1]:
+        rep.sample(json.loads(s))
+    return n[0], res
